@@ -15,7 +15,9 @@ open Httpcache
 
 /-- 304 answering the stored validators (`hval`: no precondition of the client's own reached the origin in
     their place; such a 304 is the origin's answer to the client and leaves the store alone, C06), with no-store neither on
-    the request nor on the 304 (`hns`, `hns'`: then nothing of the 304 may be written, C06), and leaving the Vary field as it is (`hvary`; a 304
+    the request nor on the 304 (`hns`, `hns'`: then nothing of the 304 may be written, C06), the merged response being one that may be stored at all
+    (`hcs`: a 304 that turns the stored response into one §3 forbids storing — must-understand over a status that is not understood,
+    no explicit freshness left on a status that is not heuristically cacheable — is used for the request and not written, C06), and leaving the Vary field as it is (`hvary`; a 304
     that changes it makes the cache store the merged response anew under what it now varies on, C04 —
     `freshen_with_new_vary_is_stored_anew`): the entry is written back under its own id with the merged header fields, the unchanged
     status and body and the timestamps of the validation exchange (so its age restarts), and the
@@ -25,6 +27,8 @@ theorem freshen_writes_back (cfg : Cfg) (reqH : Header) (key : Str) (stored : En
     (f : Freshness) (ccReq : Directives) (mv : Bool) (start t1 : Int) (r : Resp) (b : Bool) (tr : List Step) (res : Result)
     (h304 : r.status = 304) (hval : clientPreconditionForwarded reqH stored.resp.header = false) (hid : stored.id ≠ [])
     (hns : ccReq.noStore = false) (hns' : (parseCC r.header).noStore = false)
+    (hcs : canStoreResponse (respWith stored.resp (updateStoredHeaders (Header.del stored.resp.header sAge) r.header)) ccReq
+             (parseCC (updateStoredHeaders (Header.del stored.resp.header sAge) r.header)) = true)
     (hvary : joinWith [',', ' '] (Header.values (updateStoredHeaders (Header.del stored.resp.header sAge) r.header) sVary) =
              joinWith [',', ' '] (Header.values stored.resp.header sVary))
     (h : Run (handleValidation cfg sGET reqH key stored refs ri f ccReq mv start (.resp r t1 b) (fun r => .ret r)) tr res) :
@@ -32,7 +36,7 @@ theorem freshen_writes_back (cfg : Cfg) (reqH : Header) (key : Str) (stored : En
         { stored with requestedAt := start, receivedAt := t1,
                       resp := respWith stored.resp (updateStoredHeaders (Header.del stored.resp.header sAge) r.header) } ok] ∧
       res = .resp (respWith stored.resp (applyStatus .revalidated (updateStoredHeaders (Header.del stored.resp.header sAge) r.header))) :=
-  freshen_persists cfg reqH key stored refs ri f ccReq mv start t1 r b tr res h304 hval hid hns hns' hvary h
+  freshen_persists cfg reqH key stored refs ri f ccReq mv start t1 r b tr res h304 hval hid hns hns' hcs hvary h
 
 /-- … and a 304 that CHANGES the Vary field: the stored response with the merged fields (same status, same
     body) is stored anew like a full reply — the entry under the variant id of the CLIENT's request and of
@@ -44,6 +48,8 @@ theorem freshen_with_new_vary_is_stored_anew (cfg : Cfg) (reqH : Header) (key : 
     (f : Freshness) (ccReq : Directives) (mv : Bool) (start t1 : Int) (r : Resp) (b : Bool) (tr : List Step) (res : Result)
     (h304 : r.status = 304) (hval : clientPreconditionForwarded reqH stored.resp.header = false) (hid : stored.id ≠ [])
     (hns : ccReq.noStore = false) (hns' : (parseCC r.header).noStore = false)
+    (hcs : canStoreResponse (respWith stored.resp (updateStoredHeaders (Header.del stored.resp.header sAge) r.header)) ccReq
+             (parseCC (updateStoredHeaders (Header.del stored.resp.header sAge) r.header)) = true)
     (hvary : joinWith [',', ' '] (Header.values (updateStoredHeaders (Header.del stored.resp.header sAge) r.header) sVary) ≠
              joinWith [',', ' '] (Header.values stored.resp.header sVary))
     (h : Run (handleValidation cfg sGET reqH key stored refs ri f ccReq mv start (.resp r t1 b) (fun r => .ret r)) tr res) :
@@ -54,7 +60,7 @@ theorem freshen_with_new_vary_is_stored_anew (cfg : Cfg) (reqH : Header) (key : 
   have hne : stored.id.isEmpty = false := by cases hs : stored.id with
     | nil => exact absurd hs hid
     | cons c cs => rfl
-  simp only [hne, hns, hns', Bool.or_self, Bool.false_eq_true, ↓reduceIte, ne_eq, hvary, not_false_eq_true] at h
+  simp only [hne, hns, hns', hcs, Bool.not_true, Bool.or_self, Bool.false_eq_true, ↓reduceIte, ne_eq, hvary, not_false_eq_true] at h
   obtain ⟨t1', t2', ht, hw, hk⟩ := storeResponse_names _ _ _ _ _ _ _ _ _ _ _ _ h
   cases hk
   simp only [List.append_nil] at ht
